@@ -352,3 +352,44 @@ Definition rq_missing : raw_req :=
 Example C02_rejections :
   raw_handle rs1 rq_bad = Ok (RRejected (s "limit")) /\ raw_handle rs1 rq_missing = Ok (RRejected (s "q")).
 Proof. vm_compute. split; reflexivity. Qed.
+
+(* ---- request messages sharing a short name ------------------------------------------------------------------------
+   Users.ListRequest and Posts.ListRequest are different messages with different URL configurations; the
+   server's tables are per message (the model looks the input type up by its full name), so each RPC binds and
+   demands its OWN query parameters. *)
+Definition nested_msg (parent : str) (fs : list field) : message :=
+  {| m_name := parent ++ s ".ListRequest"; m_path := [parent; s "ListRequest"]; m_fields := fs; m_oneofs := [] |}.
+Definition users_list := nested_msg (s "Users")
+  [mkf (s "tenant") 1 KString Singular None;
+   mkf (s "page") 2 KInt32 Singular (Some {| q_name := s "page"; q_required := true |})].
+Definition posts_list := nested_msg (s "Posts")
+  [mkf (s "tenant") 1 KString Singular None;
+   mkf (s "author") 2 KString Singular (Some {| q_name := s "author"; q_required := false |});
+   mkf (s "limit") 3 KUint32 Singular (Some {| q_name := s "limit"; q_required := true |});
+   mkf (s "page") 4 KString Singular (Some {| q_name := s "p"; q_required := false |})].
+Definition list_users_md := mkmd (s "ListUsers") (s "Users.ListRequest") (s "/t/{tenant}/users") 1.
+Definition list_posts_md := mkmd (s "ListPosts") (s "Posts.ListRequest") (s "/t/{tenant}/posts") 1.
+Definition sv_same : service :=
+  {| sv_name := s "Dir"; sv_base := []; sv_headers := []; sv_methods := [list_users_md; list_posts_md] |}.
+Definition fl_same : file :=
+  {| fl_path := s "a.proto"; fl_package := []; fl_gopkg := s "pkg"; fl_generate := true;
+     fl_messages := [users_list; posts_list]; fl_enums := []; fl_services := [sv_same] |}.
+Definition rs_same : list sroute :=
+  match server_routes [fl_same] fl_same sv_same with Ok (Some rs) => rs | _ => [] end.
+Definition rq_same (p q : str) : raw_req :=
+  {| rq_verb := GET; rq_path := p; rq_query := q; rq_ct := CtJSON; rq_body := None |}.
+
+Example C02_same_short_name_messages :
+  List.length rs_same = 2%nat /\
+  (* the later message's own parameters are bound ... *)
+  raw_handle rs_same (rq_same (s "/t/acme/posts") (s "author=ann&limit=5&p=x&page=7"))
+    = Ok (RDispatched (s "ListPosts")
+            [(s "tenant", FS (VStr (s "acme"))); (s "author", FS (VStr (s "ann")));
+             (s "limit", FS (VInt 5)); (s "page", FS (VStr (s "x")))]) /\
+  (* ... and demanded / converted by its own kinds, not the earlier message's *)
+  raw_handle rs_same (rq_same (s "/t/acme/posts") (s "author=ann&page=3")) = Ok (RRejected (s "limit")) /\
+  raw_handle rs_same (rq_same (s "/t/acme/posts") (s "limit=abc")) = Ok (RRejected (s "limit")) /\
+  raw_handle rs_same (rq_same (s "/t/acme/users") (s "page=abc&limit=1")) = Ok (RRejected (s "page")) /\
+  raw_handle rs_same (rq_same (s "/t/acme/users") (s "page=3&author=ann"))
+    = Ok (RDispatched (s "ListUsers") [(s "tenant", FS (VStr (s "acme"))); (s "page", FS (VInt 3))]).
+Proof. vm_compute. repeat split; reflexivity. Qed.
